@@ -74,6 +74,11 @@ func formatFloat64(n float64, verb rune, prec int) string {
 
 // String returns a string representation of a Number.
 func (n Number) String() string {
+	if n == 0 {
+		// Negative zero equals zero, so it must print the same; which of the
+		// two a set such as {-7 % 7, 0} keeps depends on hash order.
+		return "0"
+	}
 	return formatFloat64(float64(n), 'G', -1)
 }
 
